@@ -14,6 +14,8 @@ Abstract syntax (Python tuples):
   ("lfor", kind, [clause ...], e)       clause = ("for", x, n | ("rng", e))  (range n) / (range (min 2 e)) | ("setv", x, e) | ("if", e) | ("do", e)
   ("do", [forms])
   ("callall", name)                     (for [hfn name] (hfn)): call every closure of a list
+  ("or", [e ...]) | ("and", [e ...]) | ("if", c, a, b)   Python's short-circuit / conditional values
+  inside a comprehension: clause ("do", ("nonlocal", [x ...])) declares for the form's own (generator) scope
 
 Reference semantics (docs/api.rst `let`, `nonlocal`, `global`, comprehension forms + Python's
 scoping for functions and classes):
@@ -84,6 +86,10 @@ def render(f):
         return "(do %s)" % " ".join(map(render, f[1]))
     if k == "sym":
         return f[1]
+    if k in ("or", "and"):
+        return "(%s %s)" % (k, " ".join(map(render, f[1])))
+    if k == "if":
+        return "(if %s %s %s)" % (render(f[1]), render(f[2]), render(f[3]))
     if k == "callall":
         return "(for [hfn %s] (hfn))" % f[1]
     raise ValueError(f)
@@ -160,6 +166,10 @@ def direct_forms(forms):
             yield from direct_forms([f[1]] + list(f[2]))
         elif k == "do":
             yield from direct_forms(f[1])
+        elif k in ("or", "and"):
+            yield from direct_forms(f[1])
+        elif k == "if":
+            yield from direct_forms(list(f[1:]))
         elif k == "lfor":
             for c in f[2]:
                 if c[0] == "setv":
@@ -200,8 +210,19 @@ def analyse_function(params, body, module_defined, static_chain, is_module=False
             elif k in ("setv", "setx"):
                 walk([f[2]], letbound, comp_own)
                 x = f[1]
+                if f[2][0] in ("or", "and", "if"):
+                    acc = set()
+                    mentioned(f[2], acc)
+                    if x in acc:
+                        # the compiler stores intermediate values in the target itself (observation reported
+                        # separately): no claim where the value reads or assigns its own target
+                        raise Ambiguous("a short-circuit / conditional value that mentions the target of its assignment")
                 if k == "setv" and x in comp_own:
                     raise Ambiguous("setv to a comprehension's own variable")
+                if ("declared", x) in comp_own:
+                    continue          # assigns the variable the form's (nonlocal x) names
+                if k == "setv" and comp_own:
+                    raise Ambiguous("setv inside a comprehension (a local of the form)")
                 if x not in letbound:
                     if k == "setx" and x in comp_own:
                         raise Ambiguous("setx to an iteration variable")
@@ -231,8 +252,20 @@ def analyse_function(params, body, module_defined, static_chain, is_module=False
                 walk([f[1]] + list(f[2]), letbound, comp_own)
             elif k == "do":
                 walk(f[1], letbound, comp_own)
+            elif k in ("or", "and"):
+                walk(f[1], letbound, comp_own)
+            elif k == "if":
+                walk(list(f[1:]), letbound, comp_own)
             elif k == "lfor":
                 own = set(comp_own) | {c[1] for c in f[2] if c[0] in ("for", "setv")}
+                declared = {x for c in f[2] if c[0] == "do" and c[1][0] == "nonlocal" for x in c[1][1]}
+                if declared:
+                    # (nonlocal x) in the form's own scope: x means the nearest binding outside the form.  Claimed
+                    # only where that is a variable the containing scope assigns directly (or the module's).
+                    if comp_own or declared & (own | set(letbound)):
+                        raise Ambiguous("nonlocal inside a nested comprehension / of its own or a let-bound name")
+                    comp_declared.update(declared)
+                    own = own | {("declared", x) for x in declared}
                 if f[2] and f[2][0][0] == "for" and isinstance(f[2][0][2], tuple):
                     walk([f[2][0][2][1]], letbound, comp_own)     # the first iterable: enclosing scope
                 for c in f[2]:
@@ -243,8 +276,10 @@ def analyse_function(params, body, module_defined, static_chain, is_module=False
                 walk([f[3]], letbound - own, own)
             elif k == "callall":
                 info.locals.add("hfn")
+            elif k == "nonlocal" and comp_own and all(("declared", x) in comp_own for x in f[1]):
+                pass
             elif k in ("nonlocal", "global"):
-                if is_module:
+                if is_module or comp_own:
                     raise Ambiguous("declaration outside a function")
                 for x in f[1]:
                     if k == "nonlocal" and x in innermost:
@@ -262,7 +297,15 @@ def analyse_function(params, body, module_defined, static_chain, is_module=False
                         # property speaks of uses "in the same scope" only
                         raise Ambiguous("declaration after a use inside a nested function")
                     (info.nonlocals if k == "nonlocal" else info.globals).add(x)
+    comp_declared = set()
     walk(body, frozenset(), frozenset())
+    for x in comp_declared:
+        if x in info.nonlocals or x in info.globals or x in params:
+            raise Ambiguous("nonlocal inside a comprehension of a name the function declares / takes as parameter")
+        if not is_module and x not in info.locals:
+            raise Ambiguous("nonlocal inside a comprehension of a name the containing function does not assign")
+        if is_module and x not in info.locals:
+            raise CompileError("no-binding", x)
     if info.nonlocals & info.globals:
         raise Ambiguous("nonlocal and global of one name")
     info.locals -= info.nonlocals | info.globals
@@ -331,10 +374,16 @@ class Interp:
                 self.static_check([f[1]] + list(f[2]), chain, letbound_here)
             elif k == "do":
                 self.static_check(f[1], chain, letbound_here)
+            elif k in ("or", "and"):
+                self.static_check(f[1], chain, letbound_here)
+            elif k == "if":
+                self.static_check(list(f[1:]), chain, letbound_here)
             elif k == "lfor":
                 for c in f[2]:
                     if c[0] == "setv":
                         self.static_check([c[2]], chain, letbound_here)
+                    elif c[0] == "do" and c[1][0] == "nonlocal":
+                        pass
                     elif c[0] in ("if", "do"):
                         self.static_check([c[1]], chain, letbound_here)
                 self.static_check([f[3]], chain, letbound_here)
@@ -472,6 +521,20 @@ class Interp:
             return None
         if k == "do":
             return self.body(f[1], env)
+        if k in ("or", "and"):
+            v = None
+            for e in f[1]:
+                v = self.ev(e, env)
+                if isinstance(v, (Closure, ClassVal)):
+                    raise Ambiguous("truth value of a function")
+                if bool(v) == (k == "or"):
+                    return v
+            return v
+        if k == "if":
+            c = self.ev(f[1], env)
+            if isinstance(c, (Closure, ClassVal)):
+                raise Ambiguous("truth value of a function")
+            return self.ev(f[2] if c else f[3], env)
         if k == "lfor":
             out = []
             cenv = CompEnv(env, {c[1] for c in f[2] if c[0] in ("for", "setv")})
@@ -587,6 +650,9 @@ class Gen:
             if nconstructs >= (2 if depth < 2 else 1) and 0.50 <= c < 0.80:
                 c = 0.3
             if c < 0.22:
+                if self.flavour == "c06" and r.random() < 0.12:
+                    out.append((r.choice(["setv", "setx"]), self.name(), self.stmt_value(self.name(), self.name(), self.name())))
+                    continue
                 out.append(("setv", self.name(), self.simple_expr()))
             elif c < 0.42:
                 out.append(self.ref(self.name()))
@@ -595,7 +661,10 @@ class Gen:
             elif c < 0.56 and budget > 0:
                 # defn of a name from the pool: hoisted to the Python scope even where a let binds the name
                 x = self.name()
-                out.append(("defn", x, [], [self.ref(self.name())]))
+                params = []
+                if self.flavour == "c06" and r.random() < 0.3:
+                    params = [("opt", "a%d" % next(self.fns), self.ref(x))]
+                out.append(("defn", x, params, [self.ref(self.name())]))
                 out.append(self.ref(x))
             elif c < 0.80 and budget > 0:
                 form, fname = self.construct(depth, budget, in_fn, local_fns)
@@ -778,7 +847,66 @@ class Gen:
             body = [("setv", n, self.lit()), ("setv", m, self.lit())] + inner + [self.ref(n), self.ref(m)]
             core = [("defn", f, [], body), ("call", ("sym", f), [])]
             return pre + core + post
+        if kind == "defn-own-default":
+            # defn of a let-bound name whose parameter default reads that name: the default is evaluated
+            # before the function is bound, so it sees the let variable
+            a = "a%d" % next(self.fns)
+            fn = ("defn", n, [("opt", a, r.choice([self.ref(n), ("fn", [], [self.ref(n)])]))],
+                  [self.ref(a)] + ([self.ref(m)] if r.random() < 0.5 else []))
+            binds = [(n, self.lit())] + ([(m, self.lit())] if r.random() < 0.4 else [])
+            r.shuffle(binds)
+            body = [fn, self.ref(n), ("call", ("sym", n), [])]
+            if r.random() < 0.4:
+                body = [("let", [(r.choice([m, o]), self.lit())], body)]
+            core = [("let", binds, [self.ref(n)] + body + [self.ref(n)])]
+            return self._wrap(pre, core, post)
+        if kind == "shortcircuit":
+            # setv/setx of a let-bound name whose value needs statements (a temporary that is renamed to the target)
+            val = self.stmt_value(n, m, o)
+            op = r.choice(["setv", "setv", "setx"])
+            first = r.choice([("lit", 0), ("lit", 0), self.lit()])
+            if r.random() < 0.5:
+                # through a closure
+                f = "f%d" % next(self.fns)
+                inner = [("defn", f, [], [("nonlocal", [n]), (op, n, val), self.ref(n)]), ("call", ("sym", f), [])]
+            else:
+                inner = [(op, n, val)]
+            if r.random() < 0.3:
+                inner = [("let", [(m, self.lit())], inner)]
+            core = [("let", [(n, first)], [self.ref(n)] + inner + [self.ref(n)])]
+            return self._wrap(pre, core, post)
+        if kind == "comp-nonlocal":
+            # (nonlocal x) in a comprehension body: x is the variable of the scope directly containing the form
+            res = "res%d" % next(self.fns)
+            cl = [("for", o, r.randint(1, 2)), ("do", ("nonlocal", [n]))]
+            if r.random() < 0.3:
+                cl.insert(1, ("if", self.lit()))
+            final = ("do", [("setv", n, self.lit()), self.ref(n)] + ([self.ref(m)] if r.random() < 0.4 else []))
+            form = ("setv", res, ("lfor", "lfor", cl, final))
+            if r.random() < 0.75:
+                f = "f%d" % next(self.fns)
+                body = [("setv", n, self.lit()), self.ref(n), form, self.ref(n)]
+                core = [("defn", f, [], body), ("call", ("sym", f), []), self.ref(n)]
+                if r.random() < 0.4:
+                    g = "f%d" % next(self.fns)
+                    core = [("defn", g, [], [("setv", n, self.lit())] + core), ("call", ("sym", g), [])]
+            else:
+                core = [form, self.ref(n)]
+            return pre + core + post
         raise ValueError(kind)
+
+    def stmt_value(self, n, m, o):
+        """a value whose compilation leaves statements: short-circuit forms with a statement-bearing operand, if"""
+        r = self.rng
+        tail = ("do", [("setv", m, self.lit()), r.choice([self.lit(), self.ref(o)])])
+        c = r.random()
+        if c < 0.4:
+            return ("or", [r.choice([("lit", 0), ("lit", 0), self.ref(o)]), tail])
+        if c < 0.7:
+            return ("and", [r.choice([self.lit(), self.ref(o)]), tail])
+        if c < 0.85:
+            return ("or", [("lit", 0), ("and", [self.lit(), tail])])
+        return ("if", r.choice([("lit", 0), self.lit(), self.ref(o)]), tail, self.lit())
 
     def program(self):
         self.reset()
